@@ -296,24 +296,36 @@ def json_fields(P, R):
                 enc[True] = n.body[0].value.value.strip('"')
             elif t.endswith('.false'):
                 enc[False] = n.body[0].value.value.strip('"')
-    dec = dict()
     dd = P.func('dd._copy._decode_node')
-    for n in ast.walk(dd.node):
-        if isinstance(n, ast.match_case) and isinstance(
-                n.pattern, ast.MatchValue) and n.body and isinstance(
-                    n.body[0], ast.Return):
-            dec[n.pattern.value.value] = au.const_int(n.body[0].value)
-    ok = (set(enc) == {True, False} and dec.get(enc[True]) == 1
-          and dec.get(enc[False]) == -1)
-    if ok:
+    if set(enc) != {True, False}:
+        raise AnalysisError(
+            'dd._copy._dump_bdd: the encoding of the terminals is no '
+            'longer `if u == ....true: return "T"` / `....false`')
+    # the decoder is run on the two codes and on node numbers
+    from .. import interp
+    prm = dd.params[0]
+    dec = dict()
+    try:
+        for code in (enc[True], enc[False], '7', '-7', '12'):
+            out, _ = interp.run_function(dd.node, {prm: code}, {})
+            dec[code] = out[1] if out[0] == 'return' else out
+    except interp.Unknown as e:
+        R.undecided('R-FORMAT', dd.qualname, 'terminal decoding', str(e))
+        dec = None
+    if dec is None:
+        pass
+    elif dec.get(enc[True]) == 1 and dec.get(enc[False]) == -1 and \
+            dec.get('7') == 7 and dec.get('-7') == -7 and \
+            dec.get('12') == 12:
         R.holds('R-FORMAT', dd.qualname,
                 f'terminals: true -> "{enc[True]}" -> 1, false -> '
-                f'"{enc[False]}" -> -1')
+                f'"{enc[False]}" -> -1; numbers decode to themselves')
     else:
         R.violation(
             'R-FORMAT', 'json-terminals', dd.qualname, 'T/F',
             f'JSON terminal encoding {enc} is not decoded back to '
-            f'(1, -1): {dec}', unit=dd.unit.rel, line=dd.lineno)
+            f'(1, -1), or node numbers not to themselves: {dec}',
+            unit=dd.unit.rel, line=dd.lineno)
     # the level stored with a node is the node's own level; the reader
     # maps it to a variable by the table written in the header
     mk = P.func('dd._copy._make_node')
